@@ -1,0 +1,9 @@
+//go:build verif
+
+// Contracts for the bcrypt authenticator, read by /verif (tqv). Comment-only.
+package bcrypt
+
+//@ func (a Authenticator) Handle(response tq.Response, request tq.Request)
+//@   implements tq.Handler.Handle
+//@   requires a.loggerProvider != nil
+//@   requires[C14] len(a.hash) == 0 ==> a.getSecret != nil
